@@ -3,7 +3,7 @@
 # ("6to4", "12": zone names that a decimal parser could mistake for numbers). Falls back to running the
 # command directly when namespaces are not permitted.
 if unshare -n true 2>/dev/null; then
-  exec unshare -n bash -c 'ip link set lo up; ip link add 6to4 type dummy 2>/dev/null || ip link add 6to4 type veth peer name p6to4 2>/dev/null; ip link add 12 type dummy 2>/dev/null; ip link add 7seven type dummy 2>/dev/null; ip link set 6to4 up 2>/dev/null; exec "$@"' _ "$@"
+  exec unshare -n bash -c 'ip link set lo up; ip link add 6to4 type dummy 2>/dev/null || ip link add 6to4 type veth peer name p6to4 2>/dev/null; ip link add 12 type dummy 2>/dev/null; ip link add 7seven type dummy 2>/dev/null; ip link set 6to4 up 2>/dev/null; export VERIF_NETNS=1; exec "$@"' _ "$@"
 else
   exec "$@"
 fi
